@@ -25,12 +25,13 @@ Inductive berr :=
 | BUnsupportedMedia (s : spec) (m : media) (ref : option N)
 | BInvalidTypeAssertion (s : spec) (ref : N) (m : media)
 | BUnsupportedAttr (s : spec) (ref : N) (kind : N)
-| BBadSpecifier (s : spec) (ref : option N).
+| BBadSpecifier (s : spec) (ref : option N)
+| BNpm (s : spec) (ref : option N) (k : N).           (* k: 0 the resolver rejected the requirement, 1 the dependency graph failed *)
 
 Definition berr_spec (e : berr) : spec :=
   match e with
   | BMissing s _ | BLoad s _ _ | BParse s | BWasmParse s | BUnsupportedMedia s _ _
-  | BInvalidTypeAssertion s _ _ | BUnsupportedAttr s _ _ | BBadSpecifier s _ => s
+  | BInvalidTypeAssertion s _ _ | BUnsupportedAttr s _ _ | BBadSpecifier s _ | BNpm s _ _ => s
   end.
 
 Inductive bslot :=
@@ -40,8 +41,9 @@ Inductive bslot :=
 | BPending (asset : bool).
 
 (* ---------- world ---------- *)
-Inductive sclass := SUrl | SNode | SBad | SPass.  (* parse_load_specifier_kind; SPass: a valid jsr: specifier when
-                                                      jsr specifiers are passed through (marked external at once) *)
+Inductive sclass := SUrl | SNode | SBad | SPass | SNpm (req : N).  (* parse_load_specifier_kind; SPass: a valid jsr: specifier when
+                                                      jsr specifiers are passed through (marked external at once);
+                                                      SNpm: a valid npm: specifier when an npm resolver is present *)
 
 Record wmod := {
   wm_hash_raw : N;                  (* SHA-256 of the bytes the loader serves (interned) *)
@@ -67,7 +69,10 @@ Record world := {
   w_lock : option (list (spec * N));     (* the lockfile's remote checksums; None = no locker *)
   w_class : list (spec * sclass);        (* absent = SUrl *)
   w_file : list spec;                    (* specifiers with scheme file *)
-  w_max_redirects : nat
+  w_max_redirects : nat;
+  w_npm : option (list (N * N))          (* None = no npm resolver; else what the resolver answers per requirement:
+                                            0 (or absent) resolves, 1 is rejected, 2 resolves but makes the dependency
+                                            graph resolution of a batch containing it fail *)
 }.
 
 Definition resp_of (W : world) (s : spec) : wresp :=
@@ -104,6 +109,9 @@ Record deferred := { df_range : option N; df_attr : N; df_dyn : bool; df_root : 
 (* one loader call: specifier, as asset (ensure_cached), with CacheSetting::Reload, presented checksum *)
 Record lcall := { lc_spec : spec; lc_asset : bool; lc_reload : bool; lc_checksum : option N }.
 
+(* one queued npm resolution *)
+Record npm_item := { ni_spec : spec; ni_req : N; ni_range : option N; ni_dyn : bool }.
+
 Record bstate := mk_bstate {
   st_slots : list (spec * bslot);
   st_redirects : list (spec * spec);
@@ -115,12 +123,13 @@ Record bstate := mk_bstate {
   st_resolved_roots : list spec;
   st_calls : list lcall;                      (* loader calls, newest first *)
   st_lock : option (list (spec * N));         (* locker: remote checksums (lockfile + recorded); None = no locker *)
-  st_lock_sets : list (spec * N)              (* set_remote_checksum calls, newest first *)
+  st_lock_sets : list (spec * N);             (* set_remote_checksum calls, newest first *)
+  st_npm : list npm_item                      (* PendingNpmState::pending_resolutions, push order *)
 }.
 
 #[export] Instance eta_bstate : Settable _ :=
   settable! mk_bstate <st_slots; st_redirects; st_has_node; st_pending; st_dyn; st_deferred; st_in_dyn;
-                       st_resolved_roots; st_calls; st_lock; st_lock_sets>.
+                       st_resolved_roots; st_calls; st_lock; st_lock_sets; st_npm>.
 
 Fixpoint set_assoc {V} (k : N) (v : V) (l : list (N * V)) : list (N * V) :=
   match l with
@@ -159,6 +168,53 @@ Definition node_module (s : spec) : module :=
   {| m_kind := MkNode; m_spec := s; m_media := MJavaScript; m_deps := []; m_types_dep := None;
      m_fc_deps := None; m_dts := false |}.
 
+Definition npm_module (s : spec) : module :=
+  {| m_kind := MkNpm; m_spec := s; m_media := MUnknown; m_deps := []; m_types_dep := None;
+     m_fc_deps := None; m_dts := false |}.
+
+(* ---------- NpmSpecifierResolver: resolve + fill_graph (the end of resolve_pending) ---------- *)
+Definition npm_code (ans : list (N * N)) (r : N) : N := match lookup r ans with Some c => c | None => 0 end.
+
+(* the static items, one batch: requirements in first-appearance order; every item of a requirement gets
+   the requirement's result (a later item of the same specifier overwrites an earlier one) *)
+Definition npm_main (ans : list (N * N)) (items : list npm_item) : list (spec * bslot) :=
+  fold_left (fun acc r =>
+    fold_left (fun acc it =>
+      if N.eqb (ni_req it) r
+      then set_assoc (ni_spec it)
+             (if N.eqb (npm_code ans r) 1 then BErr (BNpm (ni_spec it) (ni_range it) 0) else BMod (npm_module (ni_spec it))) acc
+      else acc) items acc)
+    (dedup_keep_first (map ni_req items)) [].
+
+(* the dynamic items, one call each: a failing dependency graph fails the item too *)
+Definition npm_dynamic (ans : list (N * N)) (items : list npm_item) (acc : list (spec * bslot)) : list (spec * bslot) :=
+  fold_left (fun acc it =>
+    set_assoc (ni_spec it)
+      (match npm_code ans (ni_req it) with
+       | 1 => BErr (BNpm (ni_spec it) (ni_range it) 0)
+       | 2 => BErr (BNpm (ni_spec it) (ni_range it) 1)
+       | _ => BMod (npm_module (ni_spec it))
+       end) acc) items acc.
+
+Record npm_out := { no_slots : list (spec * bslot); no_calls : list (list N); no_dep_ok : option bool }.
+
+Definition npm_resolve (W : world) (items : list npm_item) : npm_out :=
+  match w_npm W with
+  | None => {| no_slots := []; no_calls := []; no_dep_ok := None |}
+  | Some ans =>
+      let main := filter (fun it => negb (ni_dyn it)) items in
+      let dyn := filter ni_dyn items in
+      let run_main := match main, dyn with [], _ :: _ => false | _, _ => true end in
+      let reqs := dedup_keep_first (map ni_req main) in
+      {| no_slots := npm_dynamic ans dyn (if run_main then npm_main ans main else []);
+         no_calls := (if run_main then [reqs] else []) ++ map (fun it => [ni_req it]) dyn;
+         no_dep_ok := if run_main then Some (negb (existsb (fun r => N.eqb (npm_code ans r) 2) reqs)) else None |}
+  end.
+
+(* fill_graph: existing entries are kept *)
+Definition npm_fill (slots new : list (spec * bslot)) : list (spec * bslot) :=
+  fold_left (fun acc p => or_insert (fst p) (snd p) acc) new slots.
+
 Definition lock_get (st : bstate) (s : spec) : option N :=
   match st_lock st with Some l => lookup s l | None => None end.
 
@@ -191,6 +247,7 @@ Definition load (W : world) (o : bopts) (st : bstate) (spec0 : spec) (range : op
       match class_of W s with
       | SNode => (set_slot st s (BMod (node_module s))) <| st_has_node := true |>
       | SPass => set_slot st s (BExternal false)
+      | SNpm r => st <| st_npm := st_npm st ++ [{| ni_spec := s; ni_req := r; ni_range := range; ni_dyn := in_dyn |}] |>
       | SBad => set_slot st s (BErr (BBadSpecifier s range))
       | SUrl => queue_load st s range asset in_dyn root attr count
       end in
@@ -490,12 +547,14 @@ Record bgraph := {
   bg_imports : list (spec * list dep);
   bg_has_node : bool;
   bg_calls : list lcall;                  (* loader calls of the LAST operation, in order *)
-  bg_lock_sets : list (spec * N)          (* set_remote_checksum calls of the LAST operation, in order *)
+  bg_lock_sets : list (spec * N);         (* set_remote_checksum calls of the LAST operation, in order *)
+  bg_npm_calls : list (list N);           (* NpmResolver::resolve_pkg_reqs calls of the LAST operation, in order *)
+  bg_npm_dep_ok : bool                    (* npm_dep_graph_result is Ok *)
 }.
 
 Definition empty_bgraph (k : gkind) : bgraph :=
   {| bg_kind := k; bg_roots := []; bg_slots := []; bg_redirects := []; bg_imports := []; bg_has_node := false;
-     bg_calls := []; bg_lock_sets := [] |}.
+     bg_calls := []; bg_lock_sets := []; bg_npm_calls := []; bg_npm_dep_ok := true |}.
 
 Fixpoint load_roots (W : world) (o : bopts) (st : bstate) (roots : list spec) : bstate :=
   match roots with
@@ -527,12 +586,15 @@ Definition init_state (W : world) (o : bopts) (g : bgraph) : bstate :=
   {| st_slots := bg_slots g; st_redirects := bg_redirects g; st_has_node := bg_has_node g;
      st_pending := []; st_dyn := []; st_deferred := [];
      st_in_dyn := bo_is_dynamic o; st_resolved_roots := []; st_calls := [];
-     st_lock := w_lock W; st_lock_sets := [] |}.
+     st_lock := w_lock W; st_lock_sets := []; st_npm := [] |}.
 
-Definition finish (g : bgraph) (roots : list spec) (imports : list (spec * list dep)) (st : bstate) : bgraph :=
-  {| bg_kind := bg_kind g; bg_roots := roots; bg_slots := st_slots st;
+Definition finish (W : world) (g : bgraph) (roots : list spec) (imports : list (spec * list dep)) (st : bstate) : bgraph :=
+  let n := npm_resolve W (st_npm st) in
+  {| bg_kind := bg_kind g; bg_roots := roots; bg_slots := npm_fill (st_slots st) (no_slots n);
      bg_redirects := st_redirects st; bg_imports := imports;
-     bg_has_node := st_has_node st; bg_calls := rev (st_calls st); bg_lock_sets := rev (st_lock_sets st) |}.
+     bg_has_node := st_has_node st; bg_calls := rev (st_calls st); bg_lock_sets := rev (st_lock_sets st);
+     bg_npm_calls := no_calls n;
+     bg_npm_dep_ok := match no_dep_ok n with Some b => b | None => bg_npm_dep_ok g end |}.
 
 (* Builder::build on graph g (empty or the result of an earlier build) *)
 Definition build (W : world) (o : bopts) (g : bgraph) (roots : list spec) (imports : list (spec * list dep))
@@ -543,7 +605,7 @@ Definition build (W : world) (o : bopts) (g : bgraph) (roots : list spec) (impor
   let st2 := load_imports W o st1 new_imports in
   match resolve_pending (build_fuel W) W o st2 with
   | None => None
-  | Some st => Some (finish g (bg_roots g ++ new_roots) (bg_imports g ++ new_imports) st)
+  | Some st => Some (finish W g (bg_roots g ++ new_roots) (bg_imports g ++ new_imports) st)
   end.
 
 (* ---------- Builder::reload ---------- *)
@@ -561,5 +623,5 @@ Definition reload (W : world) (o : bopts) (g : bgraph) (specs : list spec) : opt
   let st1 := reload_specs W o (init_state W o g) resolved in
   match resolve_pending (build_fuel W) W o st1 with
   | None => None
-  | Some st => Some (finish g (bg_roots g) (bg_imports g) st)
+  | Some st => Some (finish W g (bg_roots g) (bg_imports g) st)
   end.
